@@ -2,7 +2,7 @@
 From Coq Require Import ZArith NArith List Bool String.
 From DM Require Import Base.PyVal Spec.Nf Spec.Table Spec.Ops Proofs.TableFacts Proofs.OpFacts.
 From DM Require Import Model.LTable Gen.KCore Model.Core Proofs.CoreRefine.
-From DM Require Import Spec.SeriesEnc Proofs.SeriesEncFacts.
+From DM Require Import Spec.SeriesEnc Proofs.SeriesEncFacts Proofs.WriteRefine.
 Import ListNotations.
 
 Theorem C04_length_kept : forall ps xs cells, List.length (write_at ps xs cells) = List.length cells.
@@ -61,6 +61,49 @@ Theorem C04_l1_index_list_write : forall (w : world) p ti name l r,
   end.
 Proof. exact setcell_list_refines. Qed.
 Print Assumptions C04_l1_index_list_write.
+
+(* BaseColumn._tosequence on its regenerated bounds (how many cells of the value are read: k_toseq_take; the length
+   test: k_toseq_badlen) is the L0 value coercion: a scalar is broadcast, a sequence is applied in order, a sequence of
+   another length raises ValueError -- for every kind, length and value *)
+Theorem C04_l1_tosequence_kernels : forall k n r, rhs_cells_k k n r = rhs_cells k n r.
+Proof. exact rhs_cells_k_spec. Qed.
+Print Assumptions C04_l1_tosequence_kernels.
+
+(* col[a:b] = value, col[i] = value and dm[name] = value (existing column) on those kernels refine the L0 operations *)
+Theorem C04_l1_slice_write : forall (w : world) p ti name a b r,
+  pool w = map abs p -> winv p ->
+  match lstep p (OSetCell ti name (ASlice a b) r) with
+  | LUpd i t' => step w (OSetCell ti name (ASlice a b) r) = (put w i (abs t'), OkUnit)
+  | LErr => exists e, snd (step w (OSetCell ti name (ASlice a b) r)) = Err e
+                      /\ fst (step w (OSetCell ti name (ASlice a b) r)) = w
+  | LSkip => True
+  | _ => False
+  end.
+Proof. exact setcell_slice_refines. Qed.
+Print Assumptions C04_l1_slice_write.
+
+Theorem C04_l1_int_write : forall (w : world) p ti name i v,
+  pool w = map abs p -> winv p ->
+  match lstep p (OSetCell ti name (AInt i) (RScalar v)) with
+  | LUpd j t' => step w (OSetCell ti name (AInt i) (RScalar v)) = (put w j (abs t'), OkUnit)
+  | LErr => exists e, snd (step w (OSetCell ti name (AInt i) (RScalar v))) = Err e
+                      /\ fst (step w (OSetCell ti name (AInt i) (RScalar v))) = w
+  | LSkip => True
+  | _ => False
+  end.
+Proof. exact setcell_int_refines. Qed.
+Print Assumptions C04_l1_int_write.
+
+Theorem C04_l1_whole_column_write : forall (w : world) p ti name r,
+  pool w = map abs p -> winv p ->
+  match lstep p (OSetCol ti name r) with
+  | LUpd i t' => step w (OSetCol ti name r) = (put w i (abs t'), OkUnit)
+  | LErrUpd i t' => exists e, step w (OSetCol ti name r) = (put w i (abs t'), Err e)
+  | LSkip => True
+  | _ => False
+  end.
+Proof. exact setcol_existing_refines. Qed.
+Print Assumptions C04_l1_whole_column_write.
 
 (* DataMatrix._getrow: the regenerated bound test rejects exactly the indices Python cannot normalise *)
 Theorem C04_getrow_bound_kernel : forall i n,
